@@ -39,7 +39,7 @@ def _names(ctx, x):
 
 @harness(P,
          quick=grid(op=O.CHEAP + O.ROOTS + O.TRANSFORMS + O.PARTS, g=["G1"], lead=[(("site", 2),)]) + grid(op=O.PEAKS, g=["P4"], lead=[(("site", 2),)]),
-         thorough=grid(op=O.CHEAP + O.ROOTS + ["smooth", "split", "ptm4", "bbox"], g=["G2"], lead=[(("time", 2), ("site", 2)), (("lat", 2), ("lon", 2))]) + grid(op=O.PEAKS, g=["P4"], lead=[(("time", 2),)]),
+         thorough=grid(op=O.CHEAP + O.ROOTS + ["smooth", "split", "ptm4", "bbox"], g=["G2"], lead=[(("time", 2), ("site", 2)), (("lat", 2), ("lon", 2))]) + grid(op=O.PEAKS + O.PEAKS_SLOW, g=["P4"], lead=[(("time", 2),)]),
          max_paths=4000)
 def independent(env, op, g, lead):
     """op(batch)[p] == op(batch[p] extracted on its own), and depends on no variable of another position."""
